@@ -678,6 +678,10 @@ func viewOf(fn *ssa.Function) *fnView {
 			var rets []*ssa.Return
 			for _, b := range sc.Blocks {
 				if r, ok := b.Instrs[len(b.Instrs)-1].(*ssa.Return); ok {
+					// returns that only report an error hand nothing on
+					if n := len(r.Results); n >= 2 && isErrorType(r.Results[n-1].Type()) && returnKinds(r.Results[n-1]) == 2 {
+						continue
+					}
 					rets = append(rets, r)
 				}
 			}
